@@ -50,7 +50,7 @@ fn read_back_all(out: &Path, reader_v3: bool) -> (u64, u64) {
         n += 1;
         let who = if reader_v3 { "v3" } else { "cur" };
         match res {
-            Ok(Ok((got, integ))) => {
+            Ok(Ok((got, integ, grew))) => {
                 let same = got == want;
                 if !same || integ != "Ok(true)" {
                     bad += 1;
@@ -61,7 +61,7 @@ fn read_back_all(out: &Path, reader_v3: bool) -> (u64, u64) {
                     let d = (0..g.len().max(w.len())).find(|i| g.get(*i) != w.get(*i)).unwrap_or(0);
                     first = format!(" first_diff_line={} got={:?} want={:?}", d, g.get(d), w.get(d));
                 }
-                writeln!(rb, "{} reader={} contents={} integrity={}{}", img, who, if same { "same" } else { "DIFF" }, integ, first).unwrap();
+                writeln!(rb, "{} reader={} contents={} integrity={} grew={}{}", img, who, if same { "same" } else { "DIFF" }, integ, u8::from(grew), first).unwrap();
             }
             Ok(Err(e)) => {
                 bad += 1;
@@ -130,6 +130,36 @@ fn main() {
             let a = redb::verif::VBuddy::from_bytes(&b);
             println!("buddy len={} max_order={} allocated_pages={} free_pages={} trailing_free={}",
                 a.len(), a.get_max_order(), a.count_allocated_pages(), a.count_free_pages(), a.trailing_free_pages());
+        }
+        Some("probe3") => {
+            // diagnostics for findings: open an image with redb 3.0.0 and watch file length / check_integrity
+            use rv_harness::backend::RecBackend;
+            let bytes = std::fs::read(&args[2]).unwrap();
+            let pre_write = args.get(3).map(|s| s == "write").unwrap_or(false);
+            let be = RecBackend::with_data(bytes.clone());
+            println!("len before open = {}", bytes.len());
+            let mut db = redb3::Database::builder().create_with_backend(util::v3::Be(be.handle())).unwrap();
+            println!("len after open  = {}", be.snapshot().len());
+            if pre_write {
+                let t = db.begin_write().unwrap();
+                t.abort().unwrap();
+                println!("len after begin_write+abort = {}", be.snapshot().len());
+            }
+            for i in 0..3 {
+                let r = db.check_integrity();
+                println!("check_integrity #{} = {:?}  len = {}", i, r.map_err(|e| e.to_string()), be.snapshot().len());
+            }
+            std::fs::write(format!("{}.after3", &args[2]), be.snapshot()).unwrap();
+        }
+        Some("resizeprobe") => {
+            // is a buddy allocator grown by resize() serialised like a fresh one of the new size? (same allocated pages)
+            let (n0, n1, cap): (u32, u32, u32) = (args[2].parse().unwrap(), args[3].parse().unwrap(), args[4].parse().unwrap());
+            let mut a = redb::verif::VBuddy::new(n0, cap);
+            for p in 0..n0 { a.record_alloc(p, 0); }
+            a.resize(n1);
+            let mut b = redb::verif::VBuddy::new(n1, cap);
+            for p in 0..n0 { b.record_alloc(p, 0); }
+            println!("resized == fresh: {}  (hash {:x} vs {:x}; len {} {}; max_order {} {})", a.to_vec() == b.to_vec(), a.xxh3_hash(), b.xxh3_hash(), a.len(), b.len(), a.get_max_order(), b.get_max_order());
         }
         Some("model") => {
             // an image written by the Coq model's encoders: table "t" u64 -> u64 = {1:10, 2:20, 3:30, 7:70}
